@@ -12,6 +12,7 @@ def api_level(rep, tier_, rng):
     from fractions import Fraction
     import mpmath, cxcases
     from mpmath import iv
+    gen_zero = (0, 0, 0, 0)
     n = 150 if tier_ == "quick" else 3000
     checked = 0
     p0 = iv.prec
@@ -44,6 +45,56 @@ def api_level(rep, tier_, rng):
                         if not inside(op(p_, q_), v):
                             rep.violation("iv.mpc operator %s misses an exact result" % nm, {"fn": "ivmpc " + nm, "x": repr(x), "y": repr(y), "prec": prec})
                             break
+        # mixed operands and operand order: a Python complex / int / iv.mpf on either side of - / ** with an interval on the
+        # other side (the reflected operators), and integer-interval exponents z ** [m, n] (every integer k in [m, n] is a
+        # member exponent, z^k exact for Gaussian-integer z); exact values by Gaussian-rational arithmetic
+        def cdiv(p, q):
+            d = q[0] * q[0] + q[1] * q[1]
+            return ((p[0] * q[0] + p[1] * q[1]) / d, (p[1] * q[0] - p[0] * q[1]) / d)
+        def cmul(p, q):
+            return (p[0] * q[0] - p[1] * q[1], p[0] * q[1] + p[1] * q[0])
+        def cpow(p, k):
+            r = (Fraction(1), Fraction(0))
+            for _i in range(abs(k)): r = cmul(r, p)
+            return r if k >= 0 else cdiv((Fraction(1), Fraction(0)), r)
+        for _ in range(60 if tier_ == "quick" else 1200):
+            prec = rng.choice([24, 53, 100]); iv.prec = prec
+            cre, cim = rng.randint(-4, 4), rng.randint(-4, 4)
+            c = complex(cre, cim); cq = (Fraction(cre), Fraction(cim))
+            lo = rng.randint(1, 3); w = rng.choice([0, 1, 2]); t = iv.mpf([lo, lo + w])
+            tp = [(Fraction(lo), Fraction(0)), (Fraction(lo + w), Fraction(0)), (Fraction(2 * lo + w, 2), Fraction(0))]
+            zc = iv.mpc(cre, cim)
+            jobs = [("complex - iv.mpf", lambda: c - t, [((cq[0] - q[0]), cq[1]) for q in tp]),
+                    ("iv.mpf - complex", lambda: t - c, [((q[0] - cq[0]), -cq[1]) for q in tp]),
+                    ("complex / iv.mpf", lambda: c / t, [cdiv(cq, q) for q in tp]),
+                    ("iv.mpf / complex", (lambda: t / c), [cdiv(q, cq) for q in tp] if (cre or cim) else []),
+                    ("iv.mpc - iv.mpf", lambda: zc - t, [((cq[0] - q[0]), cq[1]) for q in tp]),
+                    ("iv.mpf - iv.mpc", lambda: t - zc, [((q[0] - cq[0]), -cq[1]) for q in tp]),
+                    ("int - iv.mpc", lambda: 3 - zc, [(3 - cq[0], -cq[1])]),
+                    ("float / iv.mpc", (lambda: 2.0 / zc), [cdiv((Fraction(2), Fraction(0)), cq)] if (cre or cim) else []),
+                    ("iv.mpf ** complex-int", lambda: t ** 2, [(q[0] * q[0], Fraction(0)) for q in tp])]
+            if cre or cim:
+                m_ = rng.randint(-2, 2); n_ = m_ + rng.choice([0, 1, 2])
+                ks = [k for k in range(m_, n_ + 1)]
+                jobs.append(("iv.mpc ** [m, n]", lambda: zc ** iv.mpf([m_, n_]), [cpow(cq, k) for k in ks]))
+                jobs.append(("complex ** [m, n]", lambda: c ** iv.mpf([m_, n_]), [cpow(cq, k) for k in ks]))
+                if cim == 0 and cre < 0:
+                    jobs.append(("negative iv.mpf ** [m, n]", lambda: iv.mpf(cre) ** iv.mpf([m_, n_]), [cpow(cq, k) for k in ks]))
+            for nm, f, expected in jobs:
+                if not expected: continue
+                try:
+                    v = f()
+                except Exception:
+                    continue           # "whenever an interval is returned"
+                checked += 1
+                if not hasattr(v, "real") or not hasattr(v.real, "_mpi_"):
+                    rep.violation("%s did not return an interval value" % nm, {"fn": "ivmpc mixed " + nm, "c": [cre, cim], "t": [lo, lo + w], "prec": prec}); continue
+                vi = v.imag._mpi_ if hasattr(v.imag, "_mpi_") else (gen_zero, gen_zero)
+                for e_ in expected:
+                    if not (cxcases.in_interval(e_[0], *v.real._mpi_) and cxcases.in_interval(e_[1], *vi)):
+                        rep.violation("%s misses an exact result" % nm, {"fn": "ivmpc mixed " + nm, "c": [cre, cim], "t": [lo, lo + w], "prec": prec,
+                                                                        "expected": [str(e_[0]), str(e_[1])], "got": repr(v)})
+                        break
         # gamma family on rectangles: necessary condition at the integer member points, where the exact values are rationals
         # (gamma(m) = (m-1)!, rgamma(m) = 1/(m-1)!, factorial(m) = m!, loggamma(1) = loggamma(2) = 0); rectangles on and next to
         # the excluded region around the real axis left of the gamma minimum 1.4616...
@@ -76,7 +127,7 @@ def api_level(rep, tier_, rng):
         checked += gchecked
     finally:
         iv.prec = p0
-    return {"api_level_checks": checked, "api_level": "iv.mpc operators + - * **2 **3 on rectangles, 9x9 sampled member points each; gamma/rgamma/factorial/loggamma on rectangles at integer member points (exact rational values)"}
+    return {"api_level_checks": checked, "api_level": "iv.mpc operators + - * **2 **3 on rectangles, 9x9 sampled member points each; mixed operands in both orders (complex/int/float/iv.mpf with iv.mpc/iv.mpf for - / **) and integer-interval exponents z ** [m, n] against exact Gaussian-rational values; gamma/rgamma/factorial/loggamma on rectangles at integer member points (exact rational values)"}
 
 
 def run(rep, tier_, rng):
